@@ -156,7 +156,10 @@ def main():
     old = {}
     if os.path.exists(os.path.join(out, "meta.json")):
         old = json.load(open(os.path.join(out, "meta.json")))
+    merged_checks = dict(old.get("checks", {}))
+    merged_checks.update(meta.get("checks", {}))
     old.update(meta)
+    old["checks"] = merged_checks
     json.dump(old, open(os.path.join(out, "meta.json"), "w"), indent=1)
     print(json.dumps(meta, indent=1))
     return 0
